@@ -50,7 +50,7 @@ BASE_SPEC = [
 ]
 
 VARIANTS = ('base', 'passport_cascade', 'group_cascade', 'passport_optional', 'car_optional', 'car_nocascade',
-            'group_owner', 'profile_pk', 'cascade_mix', 'passport_req_cascade', 'car_explicit_pk')
+            'group_owner', 'profile_pk', 'cascade_mix', 'passport_req_cascade', 'car_explicit_pk', 'student_sub')
 
 
 def spec_variant(name):
@@ -83,6 +83,15 @@ def spec_variant(name):
         # delete of its owner took it away)
         attrs, i = attr('Car', 'id')
         attrs[i] = ('id', 'pk', {'type': 'int'})
+    elif name == 'student_sub':
+        # single-table inheritance: Student(Person) with attributes and a composite key of its own whose first part is
+        # inherited; a Person reference may point to a Student, base-class lookups have to hand out the subclass
+        # instance (class refinement of an object first seen as a bare Person reference)
+        i = [n for (n, a, o) in spec].index('Person')
+        spec.insert(i + 1, ('Student', [
+            ('gpa', 'opt', {'type': 'float'}),
+            ('level', 'opt', {'type': 'int'}),
+        ], {'base': 'Person', 'composite_keys': [('name', 'level')]}))
     elif name == 'cascade_mix':
         # a cascade that runs through several levels (group -> members -> passport) and can be refused late
         # (a member that owns a car): everything the cascade already deleted has to come back
@@ -146,10 +155,17 @@ POOLS = {
     ('Car', 'seats'): [None, 2, 4],
     ('Log', 'msg'): ['l1', 'l2', 'l3'],
     ('Profile', 'bio'): ['', 'b1', 'b2'],
+    ('Student', 'gpa'): [None, 3.5, 4.0],
+    ('Student', 'level'): [None, 1, 2],
 }
 
 
+BASES = {'Student': 'Person'}
+
+
 def pool(ent, attr):
+    while (ent, attr) not in POOLS and ent in BASES:
+        ent = BASES[ent]        # an inherited attribute
     p = POOLS[(ent, attr)]
     if any(isinstance(v, (dict, list)) for v in p):
         return copy.deepcopy(p)       # mutable values: every use gets its own
